@@ -108,15 +108,19 @@ def flushBuf (w : W) (buf : Bytes) : W :=
   let w := rfc2047 (2 * p.length + 4) w p false
   { w with spaces := w.spaces + (buf.length - p.length) }
 
-/-- does the word contain the two octets `=?` -/
-def hasEncMarker : Bytes → Bool
-  | 61 :: 63 :: _ => true
-  | _ :: r => hasEncMarker r
-  | [] => false
+/-- the SP / HTAB separated tokens of a word; `cur` is the current token, reversed -/
+def wsTokens : Bytes → Bytes → List Bytes
+  | cur, [] => [cur.reverse]
+  | cur, b :: bs => if b == 32 || b == 9 then cur.reverse :: wsTokens [] bs else wsTokens (b :: cur) bs
+
+/-- does the word contain a token of the form `=?…?=` (at least 4 octets), which a reader would
+    take for an encoded-word? -/
+def hasEncMarker (w : Bytes) : Bool :=
+  (wsTokens [] w).any fun t => t.length ≥ 4 && [61, 63].isPrefixOf t && t.drop (t.length - 2) == [63, 61]
 
 structure Opts where
   printableOnly : Bool    -- `allowed_char` = HTAB ∪ 32..126
-  guardEncoded : Bool     -- a word containing `=?` is encoded; blank words join a pending encoded run
+  guardEncoded : Bool     -- a word with a token of the form `=?…?=` is encoded; blank words join a pending encoded run
 deriving Repr
 
 /-- `HeaderValueEncoder::format` -/
